@@ -113,6 +113,9 @@ func expect(tier string) []string {
 	for _, w := range failingWriters {
 		ex = append(ex, "failing-writer="+w)
 	}
+	for _, n := range numberClassNames {
+		ex = append(ex, "number="+n)
+	}
 	return ex
 }
 
@@ -137,6 +140,7 @@ func main() {
 			"truncation = one leaf over every decoder and every cut offset (all offsets up to 4 KiB, else first 256 + every 64th + last 8; thorough: all); " +
 			"corruption = one leaf over every decoder and every located header field (each of the first 64 bytes, every small LE u32/u64, every byte of JSON texts) x {0,1,2,0xff,orig+-1,2^63,2^64-1,2^20,2^31,2^32-1} (JSON: 8 bit flips + 3 bytes), allocation-driving lengths probed at 2^19, attributed to the decoder function that reads the field (traced reader calls) and confirmed once per such function above 80 MiB; " +
 			"writer-failure = one leaf per failing writer kind over every failure offset; concurrent-writers = one leaf per interleaving of the Write calls of two objects serialized by two goroutines to two gating writers (every interleaving up to 800 / 50000 per pair). Fault-point executions run in a helper process so that fatal errors are observations. " +
+			"Catalogue values carry, besides the shapes, every class of number a codec can round: scales with a full 128-bit mantissa (2^90/q, 1/3, 2^127+1, 2^128-1, results of Scale.Mul/Div and of a ckks Mul+Rescale) alone and inside every object that carries a scale, big.Float constants that are not dyadic at 53/64/128/256 bits, float64 parameters that are neither float32 nor short decimals; equality is exact (big.Float.Cmp, and the re-marshalled bytes). " +
 			"distinct_nontrivial counts distinct (scenario, environment, observed result) classes.",
 		Assumptions: []string{
 			"back-to-back reads from one stream go through ONE shared reader implementing lattigo's buffer.Reader (bufio.Reader or buffer.Buffer); for a plain io.Reader the library documents a read-ahead bufio wrapper, so only the returned count is checked there",
